@@ -21,7 +21,7 @@ def parseKind (k aux : String) : Option Kind :=
   | "duplicate_tag" => some .duplicateTag
   | _ => none
 
-def parseObs : List String → Option Obs
+def parseValidObs : List String → Option Obs
   | ["accept"] => some .accept
   | ["reject", r, t] =>
     (match r.toNat?, (if t == "-" then some none else t.toNat?.map some) with
@@ -61,7 +61,7 @@ def validMonStep (s : ValidSt) (w : List String) : ValidSt × String :=
     (s, match s.app with
       | none => "bad-op"
       | some app =>
-        match parseBits bits, parseKind k aux, parsePMsg hex h b t, parseObs obs with
+        match parseBits bits, parseKind k aux, parsePMsg hex h b t, parseValidObs obs with
         | some st, some kind, some m, some o =>
           verdict (monValid app s.tr st kind ((tag.toNat?).getD 0) m o (if aux == "grptail" then ",grptail" else ""))
         | _, _, _, _ => "bad-op")
